@@ -1104,6 +1104,9 @@ fn main() {
             meta.push((ci, oi));
         }
     }
+    if let Ok(path) = std::env::var("C11_DUMP") {
+        let _ = std::fs::write(path, requests.join("\n") + "\n");
+    }
     let resp = run_driver(&args.driver, &requests);
 
     let mut unspecified = 0u64;
